@@ -197,13 +197,7 @@ theorem step_ne_fuel (env : Env) (st : St) (r : Rec) : step env st r ≠ .outOfF
     split
     · simp
     · cases h : parseFormulaValue r.data with
-      | ok o =>
-        simp only
-        split
-        · simp
-        · split
-          · simp
-          · cases o <;> simp
+      | ok o => cases o <;> simp
       | err e => simp
       | panic e => simp
       | outOfFuel => exact absurd h a10
